@@ -1,4 +1,159 @@
-import Rtsp.Model.Receiver
-namespace Rtsp.Recv
-theorem stub : (init true 4).buf.length = 4 := by simp [init]
-end Rtsp.Recv
+import Rtsp.Proofs.Receiver.Run
+/-
+# C14 — RTP receiver: ordered, de-duplicated delivery and exact loss accounting
+
+Property theorems about `Model/Receiver.lean` (the model of pkg/rtpreceiver/receiver.go that the
+correspondence harness runs against the real `Receiver`).  Statements only; the proofs are in
+`Rtsp/Proofs/Receiver/*.lean`.  Everything is quantified over **all** arrival histories, **all**
+starting sequence numbers (`UInt16`, so every wrap position), **all** power-of-two buffer sizes
+`2^k`, `k ≤ 14`, and both transports — by invariant + induction, no bound on the history.
+
+Hypothesis `Pow2` (buffer size `2^k`, `k ≤ 14`): `Receiver.Initialize` does not validate
+`BufferSize`; the property quantifies over powers of two, and above `2^14` the Go code's
+`int16(len(rr.buffer))` / `uint16(len(rr.buffer))` conversions stop being exact.
+
+Definitions used in the statements (all in `Proofs/Receiver`):
+`Fwd a b`  : `b` is ahead of `a` as the receiver itself decides it, `int16(b − a − 1) ≥ 0`;
+`IncFrom l seqs` : every element of `seqs` is `Fwd` of its predecessor, starting from `l`;
+`skipped l seqs` : Σ of the sequence numbers skipped between consecutive elements (mod 2^16);
+`Accounted unrel l outs` : per step, a detected restart delivers exactly the arriving packet with
+  `lost = 0`; any other step has `lost = skipped` and (unreliable mode) `IncFrom`; the chain continues
+  from the last delivered packet.
+-/
+namespace Rtsp.Recv.C14
+open Rtsp.Recv Rtsp.Facts
+
+/-- **The state invariant holds in every reachable state**, for any interleaving of packets and
+receiver reports.  (Window invariant: slot `absPos` empty; slot `absPos + r` holds, if anything, the
+packet numbered `last + 1 + r` — hence no sequence number is buffered twice.) -/
+theorem invariant_reachable (u : Bool) (size : Nat) (hs : u = true → Pow2 size) (ops : List Op) :
+    Inv (exec (Recv.init u size) ops).1 :=
+  inv_exec _ ops (inv_init u size hs)
+
+/-- **Go's `for { … }` scan in `reorder` terminates**: under the invariant it stops within
+`len(buffer) − 1` iterations (slot `absPos` is always empty). -/
+theorem scan_terminates (s : State) (h : WInv s) : scanLen s < s.buf.length := (scan_spec s h).1
+
+/-- **Ordered, de-duplicated delivery and exact loss accounting, along every history.**  From any
+reachable state that has seen its first packet, for every arrival history `ps`:
+delivered sequence numbers strictly increase (unreliable mode) except across a detected restart, and
+the number reported lost at each step equals the number of sequence numbers skipped between
+consecutively delivered packets (both modes). -/
+theorem delivered_increasing_and_lost_eq_skipped (s : State) (ps : List Pkt) (h : Inv s)
+    (hf : s.first = true) : Accounted s.unreliable s.last (run s ps).2 :=
+  run_accounted s ps h hf
+
+/-- the same from power-on: the first packet is delivered as it is, then the chain starts -/
+theorem from_init (u : Bool) (size : Nat) (hs : u = true → Pow2 size) (p : Pkt) (ps : List Pkt) :
+    (run (Recv.init u size) (p :: ps)).2.head? = some { pkts := [p], lost := 0 } ∧
+    Accounted u p.seq (run (Recv.init u size) (p :: ps)).2.tail := by
+  have h0 := inv_init u size hs
+  have hst : step (Recv.init u size) p
+      = ({ (Recv.init u size) with first := true, received := 1, rlSince := 1, last := p.seq },
+         { pkts := [p], lost := 0 }) := step_first _ p rfl
+  have hi := inv_step _ p h0
+  rw [hst] at hi
+  have := run_accounted _ ps hi rfl
+  simp only [run, hst, List.head?_cons, List.tail_cons, true_and]
+  simpa [Recv.init] using this
+
+/-- **No duplicate is buffered, none delivered twice in a row**: consecutive delivered packets
+differ (`Fwd` is irreflexive), and two packets waiting in the buffer have different numbers. -/
+theorem fwd_irrefl (a : UInt16) : ¬ Fwd a a := by
+  unfold Fwd; rw [relPos_eq]
+  have : (a - a - 1).toNat = 65535 := by
+    simp [UInt16.toNat_sub]
+  rw [this]; decide
+
+theorem buffered_distinct (s : State) (h : WInv s) (r₁ r₂ : Nat) (q₁ q₂ : Pkt)
+    (h₁ : r₁ < s.buf.length) (h₂ : r₂ < s.buf.length)
+    (e₁ : slot s r₁ = some q₁) (e₂ : slot s r₂ = some q₂) (hne : r₁ ≠ r₂) : q₁.seq ≠ q₂.seq := by
+  rw [h.seqs r₁ q₁ h₁ e₁, h.seqs r₂ q₂ h₂ e₂]
+  have hle := h.pow2.le
+  intro heq
+  have := congrArg UInt16.toNat heq
+  simp [UInt16.toNat_add, UInt16.toNat_ofNat'] at this
+  omega
+
+/-- **A packet that arrives inside the reorder window is delivered, not dropped** (see
+`window_conserved`): every packet at or ahead of the origin that is not a copy of a packet already
+waiting in its slot is — together with everything already waiting — delivered by the step or still
+waiting after it. -/
+theorem arrival_in_window_delivered (s : State) (p : Pkt) (h : WInv s)
+    (hr : 0 ≤ relPos p.seq s.last)
+    (hnd : relPos p.seq s.last < s.buf.length →
+      s.buf.getD (slotIdx s (relPos p.seq s.last).toNat) none = none ∨ relPos p.seq s.last = 0)
+    (q : Pkt) (hq : q = p ∨ q ∈ occupied s) :
+    q ∈ (reorder s p).2.pkts ∨ q ∈ occupied (reorder s p).1 :=
+  window_conserved s p h hr hnd q hq
+
+/-- **The only way a non-duplicate packet is dropped**: it is behind the origin
+(`relPos < 0`) and the restart threshold is not reached; then nothing else changes. -/
+theorem dropped_only_behind (s : State) (p : Pkt) (hr : relPos p.seq s.last < 0)
+    (hn : ¬ s.negCount + 1 > s.buf.length) :
+    (reorder s p).2.pkts = [] ∧ (reorder s p).1.buf = s.buf ∧ (reorder s p).1.absPos = s.absPos :=
+  behind_dropped s p hr hn
+
+/-- **Statistics agree with the history** (`Stats().Received`, `.Lost`, `.LastSequenceNumber`). -/
+theorem stats_agree (s : State) (ps : List Pkt) (hf : s.first = true) :
+    (run s ps).1.received = s.received + deliveredCount (run s ps).2 ∧
+    (run s ps).1.lost = s.lost + lostTotal (run s ps).2 ∧
+    (run s ps).1.last = (run s ps).2.foldl (fun l o => lastSeq l o.pkts) s.last :=
+  run_stats s ps hf
+
+/-- **Receiver reports**: the fraction-lost value computed in `report()` is below 256 in every
+reachable state, so Go's `uint8(…)` conversion never wraps; cumulative loss is clamped to 24 bits. -/
+theorem fraction_lost_lt_256 (s : State) (h : Inv s) (r : Report) (hr : (report s).2 = some r) :
+    r.fractionLost < 256 := fraction_lt_256 s h r hr
+
+theorem total_lost_clamped (s : State) (r : Report) (hr : (report s).2 = some r) :
+    r.totalLost ≤ Recv.lostClamp ∧ r.totalLost ≤ s.lost := by
+  unfold report at hr
+  cases hf : s.first with
+  | false => simp [hf] at hr
+  | true =>
+    simp only [hf, Bool.not_true, Bool.false_eq_true, if_false, Option.some.injEq] at hr
+    subst hr
+    exact ⟨Nat.min_le_right _ _, Nat.min_le_left _ _⟩
+
+/-- **Extended highest sequence number**: every delivered packet `d` positions ahead
+(`1 ≤ d < 65536 − 4095`; in unreliable mode `d ≤ 2^15` always) advances it by exactly `d`. -/
+theorem ext_seq (s : State) (p : Pkt) (d : Nat) (hd1 : 1 ≤ d)
+    (hd2 : (d : Int) < 65536 + Recv.cycleThreshold) (hp : p.seq = s.last + UInt16.ofNat d)
+    (hc : s.cycles.toNat < 65535) : extSeq (advance s p) = extSeq s + d :=
+  ext_seq_exact s p d hd1 hd2 (by decide) hp hc
+
+/-- **A restarted sender is followed again after at most `BufferSize + 1` packets.** -/
+theorem restart_followed_within (s : State) (ps : List Pkt) (h : WInv s) (hf : s.first = true)
+    (hu : s.unreliable = true) (hneg : ∀ p ∈ ps, relPos p.seq s.last < 0)
+    (hlen : ps.length = s.buf.length + 1) : ∃ o ∈ (run s ps).2, o.restart = true :=
+  restart_within s ps h hf hu hneg (by omega)
+
+/-! ## The displacement clause in the property's own wording — false of the code as it stands
+
+"a packet that arrives displaced by fewer positions than the reorder buffer size is delivered":
+with a loss before it, the whole-buffer flush moves the origin past a packet that is merely one
+position late.  Witness (N = 4, arrivals 1 2 4 5 7 6 8): `6` is never delivered and is counted lost.
+This is recorded in known-findings.txt (key `recv-late-after-loss-flush`); what *is* true of the code
+is `arrival_in_window_delivered` + `dropped_only_behind` above. -/
+
+def witness : List Pkt := [1, 2, 4, 5, 7, 6, 8].map fun n => { seq := UInt16.ofNat n, id := n }
+
+theorem displacement_clause_fails :
+    ((run (Recv.init true 4) witness).2.flatMap (·.pkts)).map (·.id) = [1, 2, 4, 5, 7, 8] ∧
+    lostTotal (run (Recv.init true 4) witness).2 = 2 := by decide
+
+/-! ## non-vacuity -/
+
+/-- a reachable mid-history state (one packet waiting two positions ahead, across the 65535 → 0
+wrap) satisfies the invariant's hypotheses used above -/
+def exState : State := (run (Recv.init true 4) [⟨65534, 0⟩, ⟨1, 1⟩]).1
+
+example : exState.first = true ∧ exState.unreliable = true ∧ exState.last = 65534 ∧
+    occupied exState = [⟨1, 1⟩] := by decide
+example : Pow2 4 := ⟨2, by decide, by decide⟩
+example : Inv exState := inv_exec _ [.pkt ⟨65534, 0⟩, .pkt ⟨1, 1⟩] (inv_init true 4 (fun _ => ⟨2, by decide, by decide⟩))
+/-- the restart hypothesis is satisfiable: five packets behind the origin with N = 4 -/
+example : ∃ o ∈ (run exState [⟨60000, 2⟩, ⟨60001, 3⟩, ⟨60002, 4⟩, ⟨60003, 5⟩, ⟨60004, 6⟩]).2, o.restart = true := by decide
+
+end Rtsp.Recv.C14
